@@ -208,8 +208,7 @@ class Die:
         return self.name
 
 
-def o3_die(prog):
-    inst, findings = [], []
+def _die_cmp_eval(prog):
     f = prog.func_opt("value_die::cmp")
     if f is None:
         raise Broken("anchor value_die::cmp vanished")
@@ -234,8 +233,61 @@ def o3_die(prog):
         "value_die::is_raw": lambda ev, o, a: o.raw,
         "zw_value::cmp": lambda ev, o, a: ev.call(f, o, [a[0]]),
         "value_die::cmp": lambda ev, o, a: ev.call(f, o, [a[0]]),
+        "method:get": lambda ev, o, a: o,
     }
     ev = Evaluator(hooks, {}, ptr_lt=True, prog=prog)
+    return f, ev
+
+
+def i1d(prog):
+    """the same DIE known with a partial import history (as `child` produces it: the chain restarts at the innermost import point)
+    compares equal to itself known with the full history (as `entry` produces it): value_die::cmp interpreted on pairs of abstract DIEs
+    whose import chains agree on the part both know."""
+    inst, findings = [], []
+    f, ev = _die_cmp_eval(prog)
+    W = Die("ip@20", 1, 20, False, None)
+    I1 = Die("ip@10", 1, 10, False, None)
+    I1w = Die("ip@10<-ip@20", 1, 10, False, W)
+    I2 = Die("ip@12<-ip@10", 1, 12, False, I1)
+    I2w = Die("ip@12<-ip@10<-ip@20", 1, 12, False, I1w)
+    I2n = Die("ip@12", 1, 12, False, None)
+    chains = [None, I1, I1w, I2, I2w, I2n]
+
+    def chain(d):
+        out = []
+        while d is not None:
+            out.append(d.m_die["off"])
+            d = d.m_import
+        return out
+    n = 0
+    bad = None
+    for ia, ib in itertools.product(chains, repeat=2):
+        ca, cb = chain(ia), chain(ib)
+        k = min(len(ca), len(cb))
+        if ca[:k] != cb[:k]:
+            continue
+        for ra, rb in itertools.product((False, True), repeat=2):
+            a = Die("die@1%s[%s]" % ("r" if ra else "c", ia.name if ia else "-"), 1, 1, ra, ia)
+            b = Die("die@1%s[%s]" % ("r" if rb else "c", ib.name if ib else "-"), 1, 1, rb, ib)
+            r = ev.call(f, a, [b])
+            if not (isinstance(r, tuple) and r[0] == "enum"):
+                raise Broken("value_die::cmp did not evaluate to a cmp_result on the abstract domain")
+            n += 1
+            if r[1] != "equal" and bad is None:
+                bad = "%r vs %r is %s" % (a, b, r[1])
+    inst.append(("I1d:value_die::cmp", {"pairs": n}))
+    if bad:
+        findings.append({"key": "I1d:value_die::cmp", "where": "libzwerg/" + f["l"],
+                         "msg": "the same DIE (same Dwarf, same offset) with import histories that agree on the part both know compares unequal: %s; "
+                                "`child` restarts the import chain at the innermost import point while `entry` carries the full chain, so a DIE would "
+                                "no longer equal itself reached through its parent" % bad, "detail": None})
+    return inst, findings
+
+
+def o3_die(prog):
+    inst, findings = [], []
+    f, ev = _die_cmp_eval(prog)
+    Die._n = 0
     # universe: one Dwarf, import-chain heads X, Y (cooked, no import of their own), Z imported through X
     X = Die("imp@10", 1, 10, False, None)
     Y = Die("imp@11", 1, 11, False, None)
